@@ -46,7 +46,7 @@ import (
 	"strings"
 )
 
-const version = "panicsites-v9"
+const version = "panicsites-v10"
 
 // packages (directories) whose functions take part in the call graph
 var scopeDirs = []string{
